@@ -1,5 +1,5 @@
 from props import pq_shared
-SITES = pq_shared.PQ_SITES
+SITES = pq_shared.PQ_SITES + ['omen_save', 'calc_probs', 'save_counter', 'save_indexed']
 TRUSTED = pq_shared.PQ_TRUSTED
 ASSUMPTIONS = ['ruleset is well-formed: group probabilities non-increasing in file order, finite, non-negative']
 def run(ctx): return pq_shared.run(ctx, 'C01')
